@@ -167,3 +167,108 @@ package aper
 //@ ensures alloc: len(result0.Bytes) <= len(pd.bytes)+8
 //@ assigns &pd.byteOffset, &pd.bitsOffset
 //@ loop 0 invariant inv (pd *perBitData, bitString BitString, old_pd perBitData): vcInv(pd) && pd.byteOffset >= old_pd.byteOffset && uint64(len(bitString.Bytes)) <= pd.byteOffset+1 && len(pd.bytes) == len(old_pd.bytes)
+
+// ---- encoder (C03): the bit cursor of perRawBitData ----
+// Encoder invariant EInv(pd): bitsOffset <= 7; a partly filled last octet exists when bitsOffset > 0 and
+// its unused low-order bits are zero.  The encoding so far is the bit string of
+// vcBitLen(pd) = 8*len(bytes) - (8-bitsOffset)%8 bits.
+
+// putBitString appends the first numBits bits of `bytes` (whose padding bits are zero).
+//@ func (*perRawBitData).putBitString
+//@ prop C03 C04
+//@ requires einv: vcEInv(pd) && len(pd.bytes) <= 1<<24
+//@ requires bits: numBits >= 1 && numBits <= 1<<20 && uint64(len(bytes))*8 >= uint64(numBits) && len(bytes) <= 1<<20
+//@ requires clean: numBits&7 == 0 || bytes[(numBits-1)>>3]&(0xff>>(numBits&7)) == 0
+//@ let b0 := vcBitLen(pd)
+//@ let old0 := append([]byte(nil), pd.bytes...)
+//@ ensures ok: err == nil
+//@ ensures einv: vcEInv(pd)
+//@ ensures len: vcBitLen(pd) == b0+uint64(numBits)
+//@ ensures prefix: vc.Forall(0, int(b0>>3), func(t int) bool { return pd.bytes[t] == old0[t] })
+//@ ensures partial: vc.Imp(b0&7 != 0, pd.bytes[b0>>3]&^(0xff>>(b0&7)) == old0[b0>>3])
+//@ assigns &pd.bytes, &pd.bitsOffset
+
+// putBitsValue appends `value` as a bit field of numBits bits (X.691 10.5.6/10.5.7 "non-negative-binary-integer"),
+// refusing values that do not fit.  General contract (any prefix): what it refuses, frame, invariant, length.
+// The value of the appended field is lemma rt_bits (prefix of one octet, every width and alignment).
+//@ func (*perRawBitData).putBitsValue
+//@ prop C03 C04
+//@ requires einv: vcEInv(pd) && len(pd.bytes) <= 1<<24
+//@ requires bits: numBits <= 64
+//@ let b0 := vcBitLen(pd)
+//@ let old0 := append([]byte(nil), pd.bytes...)
+//@ ensures fits: (err == nil) == (numBits == 0 || numBits == 64 || value>>numBits == 0)
+//@ ensures same: vc.Imp(err != nil || numBits == 0, vcBitLen(pd) == b0 && len(pd.bytes) == len(old0) && vc.Forall(0, len(old0), func(t int) bool { return pd.bytes[t] == old0[t] }))
+//@ ensures einv: vcEInv(pd)
+//@ ensures len: vc.Imp(err == nil, vcBitLen(pd) == b0+uint64(numBits))
+//@ ensures prefix: vc.Forall(0, int(b0>>3), func(t int) bool { return pd.bytes[t] == old0[t] })
+//@ assigns &pd.bytes, &pd.bitsOffset
+//@ loop i unroll 9
+
+//@ func (*perRawBitData).appendAlignBits
+//@ prop C03 C04
+//@ requires einv: vcEInv(pd)
+//@ ensures aligned: pd.bitsOffset == 0 && len(pd.bytes) == old(len(pd.bytes)) && vcEInv(pd)
+//@ assigns &pd.bitsOffset
+
+// X.691 10.5.7: constrained whole number.  Ranges above 64K and negative ranges are refused.
+//@ func (*perRawBitData).appendConstraintValue
+//@ prop C03 C04
+//@ requires einv: vcEInv(pd) && len(pd.bytes) <= 1<<23
+//@ let b0 := vcBitLen(pd)
+//@ let old0 := append([]byte(nil), pd.bytes...)
+//@ ensures refuse: vc.Imp(valueRange < 0 || valueRange > 65536, err != nil)
+//@ ensures einv: vcEInv(pd)
+//@ ensures grows: vcBitLen(pd) >= b0 && vcBitLen(pd) <= b0+7+16
+//@ ensures field: vc.Imp(err == nil && valueRange <= 255, vcBitLen(pd) == b0+uint64(per.FieldWidth(valueRange)))
+//@ ensures octets: vc.Imp(err == nil && valueRange >= 256, pd.bitsOffset == 0 && uint64(len(pd.bytes)) == (b0+7)>>3+uint64(per.OctetsFor(valueRange)))
+//@ ensures prefix: vc.Forall(0, int(b0>>3), func(t int) bool { return pd.bytes[t] == old0[t] })
+//@ assigns &pd.bytes, &pd.bitsOffset
+//@ loop i unroll 9
+
+// X.691 10.9: length determinant.
+//@ func (*perRawBitData).appendLength
+//@ prop C03 C04
+//@ requires einv: vcEInv(pd) && len(pd.bytes) <= 1<<23
+//@ requires frag: value <= 65536
+//@ let b0 := vcBitLen(pd)
+//@ let old0 := append([]byte(nil), pd.bytes...)
+//@ ensures einv: vcEInv(pd)
+//@ ensures grows: vcBitLen(pd) >= b0 && vcBitLen(pd) <= b0+7+16
+//@ ensures unconstrained: vc.Imp(!(sizeRange <= 65536 && sizeRange > 0), err == nil && pd.bitsOffset == 0 && uint64(len(pd.bytes)) == (b0+7)>>3+uint64(per.LengthOctets(value)))
+//@ ensures prefix: vc.Forall(0, int(b0>>3), func(t int) bool { return pd.bytes[t] == old0[t] })
+//@ assigns &pd.bytes, &pd.bitsOffset
+
+//@ func (*perRawBitData).appendBool
+//@ prop C03 C04
+//@ requires einv: vcEInv(pd) && len(pd.bytes) <= 1<<23
+//@ let b0 := vcBitLen(pd)
+//@ ensures ok: err == nil && vcEInv(pd) && vcBitLen(pd) == b0+1
+//@ assigns &pd.bytes, &pd.bitsOffset
+
+// ENUMERATED (X.691 13): the index as a constrained whole number; values outside lb..ub are refused.
+//@ func (*perRawBitData).appendEnumerated
+//@ prop C03 C04
+//@ maynil lowerBoundPtr upperBoundPtr
+//@ requires einv: vcEInv(pd) && len(pd.bytes) <= 1<<22
+//@ requires bounds: lowerBoundPtr == nil || upperBoundPtr == nil || (*lowerBoundPtr >= 0 && *lowerBoundPtr <= *upperBoundPtr && *upperBoundPtr < 1<<32)
+//@ let b0 := vcBitLen(pd)
+//@ ensures refuse: vc.Imp(lowerBoundPtr == nil || upperBoundPtr == nil || int64(value) > *upperBoundPtr || int64(value) < *lowerBoundPtr, result != nil)
+//@ ensures einv: vcEInv(pd) && vcBitLen(pd) >= b0
+//@ assigns &pd.bytes, &pd.bitsOffset
+
+// INTEGER (X.691 12): a value below the lower bound, or above the upper bound of a non-extensible
+// constraint, is refused instead of being put on the wire.
+//@ func (*perRawBitData).appendInteger
+//@ prop C03 C04 C13
+//@ maynil lowerBoundPtr upperBoundPtr
+//@ requires einv: vcEInv(pd) && len(pd.bytes) <= 1<<22
+//@ requires bounds: lowerBoundPtr == nil || upperBoundPtr == nil || (*lowerBoundPtr <= *upperBoundPtr && *upperBoundPtr-*lowerBoundPtr >= 0 && *upperBoundPtr-*lowerBoundPtr < 1<<62)
+//@ let b0 := vcBitLen(pd)
+//@ ensures refuse: vc.Imp(lowerBoundPtr != nil && (value < *lowerBoundPtr || (upperBoundPtr != nil && value > *upperBoundPtr && !extensive)), result != nil)
+//@ ensures einv: vcEInv(pd) && vcBitLen(pd) >= b0
+//@ ensures fixed: vc.Imp(lowerBoundPtr != nil && upperBoundPtr != nil && *lowerBoundPtr == *upperBoundPtr && value == *lowerBoundPtr && !extensive, result == nil && vcBitLen(pd) == b0)
+//@ assigns &pd.bytes, &pd.bitsOffset
+//@ loop rawLength unroll 10
+//@ loop byteLen unroll 10
+//@ loop i unroll 9
